@@ -9,7 +9,7 @@ pub mod raw;
 pub mod rel;
 pub mod subtags;
 pub mod total;
-#[cfg(feature = "likely")]
+#[cfg(feature = "hooks")]
 pub mod tables;
 pub mod universe;
 
@@ -44,7 +44,7 @@ pub fn engines() -> Vec<Engine> {
         Engine { name: "c07", prop: "C07", run: likelyeng::run_c07, replay_bytes: None, replay_json: Some(likelyeng::c07_replay) },
         #[cfg(feature = "likely")]
         Engine { name: "c08", prop: "C08", run: likelyeng::run_c08, replay_bytes: None, replay_json: Some(likelyeng::c08_replay) },
-        #[cfg(feature = "likely")]
+        #[cfg(feature = "hooks")]
         Engine { name: "likely_miri", prop: "C06", run: likelyeng::run_likely_miri, replay_bytes: None, replay_json: Some(likelyeng::c07_replay) },
         Engine { name: "c09", prop: "C09", run: parse::run_c09, replay_bytes: Some(parse::c09_check_masks), replay_json: Some(c09_replay_json) },
         Engine { name: "c10", prop: "C10", run: hist::run_c10, replay_bytes: None, replay_json: Some(hist::c10_replay) },
@@ -56,7 +56,7 @@ pub fn engines() -> Vec<Engine> {
         Engine { name: "c15", prop: "C15", run: subtags::run_c15, replay_bytes: Some(subtags::c15_replay), replay_json: None },
         Engine { name: "c17", prop: "C17", run: raw::run_c17, replay_bytes: None, replay_json: Some(raw::c17_replay) },
         Engine { name: "c19", prop: "C19", run: raw::run_c19, replay_bytes: Some(raw::c19_check_str), replay_json: Some(raw::c19_replay) },
-        #[cfg(feature = "likely")]
+        #[cfg(feature = "hooks")]
         Engine { name: "c18", prop: "C18", run: tables::run_c18, replay_bytes: None, replay_json: None },
     ]
 }
